@@ -1083,6 +1083,151 @@ fn one_sync_quiet(r: &mut Rng, _out: &mut Sink, _ctx: &SyncCtx, sim: &mut Option
     Some(t2)
 }
 
+// ------------------------------------------------------------------------------------------------ walker pages through WAL + redo
+
+/// a page the REAL page walker handed out without a bucket (created, or reconstructed and promoted)
+pub struct FreshPage {
+    pub pid: PageId,
+    /// the 126 node slots as the walker left them (what it did not write is whatever the pool page held)
+    pub nodes: Vec<[u8; 32]>,
+    pub elided: u64,
+    pub diff: [u64; 2],
+    /// the slots whose content the trie defines (the parent position holds at least two keys)
+    pub meaningful: Vec<usize>,
+}
+
+/// C16 / C03 / C04, composed on real code: the pages of a REAL walk that go to fresh buckets → the REAL `prepare_sync` on a
+/// table whose free buckets (and tombstones) hold stale bytes of earlier occupants → a crash before / in the middle of the
+/// write-out → the REAL `recover`. The WAL entry carries only the slots the diff names and redo writes them over the
+/// BUCKET's old bytes (not over the pool page), so: after recovery every meaningful slot, the elided-children field and the
+/// label of each page must be the walker's. Slots that are not meaningful may keep stale bytes (counted, never read:
+/// the reader descends only below internal nodes).
+pub fn redo_of_walker_pages(out: &mut Sink, r: &mut Rng, dir: &str, pages: &[FreshPage], what: &str) {
+    if pages.is_empty() {
+        return;
+    }
+    let n = pages.len() * 3 + 8 + r.below(64);
+    let mut seed16 = [0u8; 16];
+    seed16.copy_from_slice(&r.bytes32()[..16]);
+    let mut t = Tbl::new(n, seed16);
+    for b in 0..n {
+        let mut p = vec![0u8; PAGE];
+        for c in p.chunks_mut(8) {
+            c.copy_from_slice(&r.next().to_le_bytes());
+        }
+        t.pages.insert(b, p);
+        if r.chance(1, 3) {
+            t.meta[b] = 0x7f;
+        }
+    }
+    let changes: Vec<Ch> = pages
+        .iter()
+        .map(|p| {
+            let mut page = vec![0u8; PAGE];
+            for c in page[4032..4056].chunks_mut(8) {
+                c.copy_from_slice(&r.next().to_le_bytes());
+            }
+            for (i, nd) in p.nodes.iter().enumerate().take(126) {
+                page[i * 32..i * 32 + 32].copy_from_slice(nd);
+            }
+            page[PAGE - 40..PAGE - 32].copy_from_slice(&p.elided.to_le_bytes());
+            set_label(&mut page, &p.pid);
+            Ch { pid: p.pid.clone(), page, diff: p.diff, bk: fresh_bk(r), cover_plan: None }
+        })
+        .collect();
+    let seqn = r.next() as u32;
+    let mut sim: Option<PrepareSim> = None;
+    let run = real_sync(&mut sim, &t, 0, None, seqn, &changes);
+    let (ht, cache) = match &run.outcome {
+        Outcome::Ok { ht, cache } => (ht, cache),
+        Outcome::Exhausted => {
+            out.count("walker_redo_exhausted");
+            return;
+        }
+        Outcome::Panic => {
+            out.fail(format!("C04 {what}: prepare_sync panics on the fresh pages of a real walk"));
+            return;
+        }
+    };
+    if cache.len() != changes.len() {
+        out.fail(format!("C04 {what}: {} cache updates for {} fresh pages", cache.len(), changes.len()));
+        return;
+    }
+    let off = mp(n);
+    let img0 = t.image();
+    for variant in 0..2 {
+        // 0: crash before any page of the write-out reached the disk; 1: a random subset of the write-out is on disk
+        let mut img = img0.clone();
+        if variant == 1 {
+            for (pn, p) in ht {
+                if r.chance(1, 2) {
+                    let pn = *pn as usize;
+                    img[pn * PAGE..(pn + 1) * PAGE].copy_from_slice(p);
+                }
+            }
+        }
+        std::fs::write(format!("{dir}/ht"), &img).unwrap();
+        std::fs::write(format!("{dir}/wal"), &run.wal).unwrap();
+        let htf = std::fs::OpenOptions::new().read(true).write(true).open(format!("{dir}/ht")).unwrap();
+        let wf = std::fs::OpenOptions::new().read(true).write(true).open(format!("{dir}/wal")).unwrap();
+        let (n32, seed2) = (n as u32, seed16);
+        match catch_unwind(AssertUnwindSafe(move || open_and_recover(seqn, n32, seed2, htf, wf))) {
+            Ok(Ok(())) => {}
+            _ => {
+                out.fail(format!("C03 {what}: recovery of the WAL holding the fresh pages of a real walk fails"));
+                return;
+            }
+        }
+        let got = std::fs::read(format!("{dir}/ht")).unwrap();
+        if got.len() != img0.len() || got[..off * PAGE] != run.meta[..] {
+            out.fail(format!("C04 {what}: after recovery the meta map is not the one of the sync"));
+            continue;
+        }
+        for (i, p) in pages.iter().enumerate() {
+            let b = match cache[i].1 {
+                Some(b) => b as usize,
+                None => {
+                    out.fail(format!("C04 {what}: fresh page {} got no bucket", hex(&p.pid.encode())));
+                    continue;
+                }
+            };
+            let pg = &got[(off + b) * PAGE..(off + b + 1) * PAGE];
+            if pg[PAGE - 32..] != p.pid.encode() {
+                out.fail(format!("C03 {what}: after recovery bucket {b} does not carry the label of page {}", hex(&p.pid.encode())));
+            }
+            if pg[PAGE - 40..PAGE - 32] != p.elided.to_le_bytes() {
+                out.fail(format!("C03 {what}: after recovery the elided-children field of page {} is not the walker's", hex(&p.pid.encode())));
+            }
+            let mut stale = 0u64;
+            let mut lost = 0usize;
+            for s in 0..126 {
+                let same = pg[s * 32..s * 32 + 32] == p.nodes[s];
+                if p.meaningful.contains(&s) {
+                    if !same {
+                        lost += 1;
+                    }
+                    if !same && lost == 1 {
+                        out.fail(format!(
+                            "C16 {what}: after WAL redo the meaningful slot {s} of page {} (fresh bucket {b}) holds {} — the walker's node is {} (diff names it: {})",
+                            hex(&p.pid.encode()),
+                            hex(&pg[s * 32..s * 32 + 32]),
+                            hex(&p.nodes[s]),
+                            named(&p.diff, s)
+                        ));
+                    }
+                    out.count("walker_redo_meaningful_slots");
+                } else if !same {
+                    stale += 1;
+                }
+            }
+            out.add("walker_redo_meaningful_slots_lost", lost as u64);
+            out.add("walker_redo_stale_bytes_in_unread_slots", stale);
+            out.count(if variant == 0 { "walker_redo_pages_checked" } else { "walker_redo_pages_checked_partial_writeout" });
+        }
+    }
+    out.count("walker_redo_syncs");
+}
+
 pub fn run(seed: u64, cases: usize, out: &mut Sink) {
     let dir = format!("/dev/shm/nomt-verif-prepsync-{}-{seed}", std::process::id());
     let _ = std::fs::remove_dir_all(&dir);
